@@ -346,3 +346,304 @@ Proof.
     + repeat split; congruence.
 Qed.
 Print Assumptions operate_assign_new.
+
+(* ------------------------------------------------------------------ "lhs=expr" up to the assignment step, for any left-hand name *)
+Lemma evaluate_assign_run lhs e t d :
+  Inv t -> coords_ok t -> Table.size t <> 0%nat -> fresh_from t 0 -> lhs_ok lhs ->
+  wf e -> wfe t e -> (0 < minclass e)%nat -> clean (print e) = true -> sem t e = Ok d ->
+  exists t' it, Ext t t' 0 (0 + nops e) /\ coords_ok t' /\ irel t' it d /\
+    evaluate t (assign_str lhs e) = (do p <- apply_op t' (SStr lhs) it "=" (0 + nops e); Ok (fst p, None)).
+Proof.
+  intros HI Hco Hs Hfresh Hl Hwf Hwfe Hmin Hclean Hsem.
+  assert (HP : forall p, In p pats -> contains p (assign_str lhs e) = false) by (intros p Hp; apply assign_no_pat; assumption).
+  assert (Hsp : forallb (fun c => negb (Ascii.eqb c " ")) (assign_str lhs e) = true).
+  { unfold assign_str. apply forallb_app_true; [apply lhs_nospace; exact Hl|]. cbn [forallb]. cbn [Ascii.eqb negb andb].
+    unfold clean in Hclean. apply andb_prop in Hclean. destruct Hclean as [Hc _]. apply andb_prop in Hc. destruct Hc as [Hc _].
+    apply andb_prop in Hc. destruct Hc as [_ Hc]. exact Hc. }
+  assert (Hvoid : contains (s_ "=") (assign_str lhs e) = true) by (apply (contains_mid (s_ "=") lhs (print e))).
+  destruct lhs as [|c0 r0] eqn:Elhs; [destruct Hl as [Hne _]; congruence|]. rewrite <- Elhs in *.
+  assert (Hc0 : Ascii.eqb c0 "-" || Ascii.eqb c0 "+" = false).
+  { destruct Hl as [_ [Hsx _]]. rewrite Elhs in Hsx. cbn [forallb] in Hsx. apply andb_prop in Hsx. destruct Hsx as [Hsx _].
+    apply negb_true_iff in Hsx. destruct (Ascii.eqb_spec c0 "-") as [->|]; [discriminate Hsx|]. destruct (Ascii.eqb_spec c0 "+") as [->|]; [discriminate Hsx | reflexivity]. }
+  unfold evaluate. cbv zeta.
+  rewrite (filter_nospace _ Hsp), (special_id_g _ HP), (reflex_id_g _ HP).
+  rewrite (unary_id_g _ HP c0 (r0 ++ "="%char :: print e)) by (try exact Hc0; unfold assign_str; rewrite Elhs; reflexivity).
+  cbn [bind]. rewrite (mark_id_g _ HP), Hvoid.
+  rewrite (wrap_assign lhs e (List.length (assign_str lhs e)) Hl Hwf Hmin).
+  2:{ pose proof (size_le_print e Hwf). unfold assign_str. rewrite app_length. cbn [List.length]. lia. }
+  cbn [rpn_res bind app].
+  assert (Hopt : op_token lhs = false).
+  { rewrite Elhs. destruct r0 as [|c1 r1]; [|reflexivity]. cbn [op_token].
+    destruct Hl as [_ [Hsx _]]. rewrite Elhs in Hsx. cbn [forallb] in Hsx. apply andb_prop in Hsx. destruct Hsx as [Hsx _]. apply negb_true_iff in Hsx.
+    destruct (mem c0 operators) eqn:Em; [|reflexivity]. exfalso.
+    unfold operators in Em. cbn in Em. unfold special, class_of in Hsx.
+    repeat match type of Em with context [Ascii.eqb ?a ?b] => destruct (Ascii.eqb_spec a b) as [->|]; [cbn in Hsx; discriminate Hsx|] end. discriminate Em. }
+  rewrite run_push by exact Hopt.
+  destruct (run_expr e t 0 [SStr lhs] [["="%char]] d HI Hco Hs Hfresh Hwfe Hsem) as [t' [it [Hrun [Hext [Hco' Hirel]]]]].
+  exists t', it. split; [exact Hext|]. split; [exact Hco'|]. split; [exact Hirel|].
+  rewrite Hrun. rewrite run_op by reflexivity.
+  destruct (apply_op t' (SStr lhs) it "=" (0 + nops e)) as [[t1 it1]|err]; reflexivity.
+Qed.
+
+(* the assignment step onto an existing feature (not a coordinate) *)
+Lemma lookup_has t n i : lookup (dico t) n = Some i -> has_af t n = true.
+Proof. intros H. unfold has_af. rewrite H. reflexivity. Qed.
+
+Lemma not_xyzt t lhs : Inv t -> In lhs (names t) -> existsb (str_eqb lhs) (map s_ ["x"; "y"; "z"; "t"]%string) = false /\ existsb (str_eqb lhs) (map s_ ["x"; "y"; "z"]%string) = false.
+Proof.
+  intros HI Hin. pose proof (inv_novirt t HI lhs Hin) as Hv.
+  split.
+  - destruct (existsb (str_eqb lhs) (map s_ ["x"; "y"; "z"; "t"]%string)) eqn:E; [|reflexivity]. exfalso.
+    apply existsb_exists in E. destruct E as [v [Hv' Ev]]. apply str_eqb_true in Ev. subst v.
+    cbn in Hv'. destruct Hv' as [<-|[<-|[<-|[<-|[]]]]]; discriminate Hv.
+  - destruct (existsb (str_eqb lhs) (map s_ ["x"; "y"; "z"]%string)) eqn:E; [|reflexivity]. exfalso.
+    apply existsb_exists in E. destruct E as [v [Hv' Ev]]. apply str_eqb_true in Ev. subst v.
+    cbn in Hv'. destruct Hv' as [<-|[<-|[<-|[]]]]; discriminate Hv.
+Qed.
+
+Lemma assign_over t lhs i it d k :
+  Inv t -> coords_ok t -> Table.size t <> 0%nat -> lookup (dico t) lhs = Some i -> irel t it d ->
+  (match d with DC col => List.length col = Table.size t | DS _ => True end) ->
+  exists t1, apply_op t (SStr lhs) it "=" k = Ok (t1, SNone) /\ Inv t1 /\
+    (names t1 = names t \/ names t1 = filter (keep lhs) (names t) ++ [lhs]) /\
+    Table.size t1 = Table.size t /\ get_af t1 lhs = Ok (dcol (Table.size t) d) /\
+    xs t1 = xs t /\ ys t1 = ys t /\ zs t1 = zs t /\ ts t1 = ts t /\
+    (forall m, m <> lhs -> get_af t1 m = get_af t m).
+Proof.
+  intros HI Hco Hs Hlk Hrel Hlen. unfold apply_op. change (Ascii.eqb "=" "=") with true. cbv iota.
+  assert (Hin : In lhs (names t)).
+  { destruct (In_dec (list_eq_dec ascii_dec) lhs (names t)) as [H|H]; [exact H|]. apply lookup_none_notin in H. congruence. }
+  destruct (not_xyzt t lhs HI Hin) as [Hx4 Hx3]. pose proof (lookup_has t lhs i Hlk) as Hhas.
+  destruct d as [v|col].
+  - destruct Hrel as [Ha [Hb Hc]]. rewrite Ha, Hc. cbn [bind]. rewrite Hx3, Hlk.
+    assert (exists t1, set_col t lhs (repeat v (Table.size t)) = Ok t1) as [t1 Hset].
+    { unfold set_col. pose proof (inv_novirt t HI lhs Hin) as Hv.
+      assert (Hnv : forall s, In s virtuals -> str_eqb lhs s = false).
+      { intros s Hs'. apply Table_inv.str_eqb_false. intros ->. unfold is_virtual in Hv.
+        rewrite <- not_true_iff_false in Hv. apply Hv. apply existsb_exists. exists s. split; [assumption | apply str_eqb_refl]. }
+      rewrite !Hnv by (unfold virtuals; simpl; tauto). rewrite Hlk. eexists. reflexivity. }
+    rewrite Hset. cbn [bind].
+    destruct (set_col_spec t lhs i (repeat v (Table.size t)) t1 HI Hlk (repeat_length _ _) Hset) as [HI1 [Hn1 [_ [Hs1 [Hx [Hy [Hz [Ht [Hg Hfr]]]]]]]]].
+    exists t1. split; [reflexivity|]. split; [exact HI1|]. split; [left; exact Hn1|]. split; [exact Hs1|]. split; [exact Hg|]. repeat split; assumption.
+  - destruct Hrel as [n [-> [Ha [Hb Hc]]]]. cbn [item_has_af]. rewrite Ha, Hhas, Hx4, Hc. cbn [bind].
+    assert (exists t1, remove_af t lhs = Ok t1) as [t1 Hrm] by (unfold remove_af; rewrite Hhas, Hlk; cbn [negb]; eexists; reflexivity).
+    rewrite Hrm. cbn [bind].
+    destruct (remove_spec t lhs i t1 HI Hlk Hrm) as [HI1 [Hn1 [Hs1 [Hx1 [Hy1 [Hz1 [Ht1 [Hg1 Hfr1]]]]]]]].
+    assert (Hnew : has_af t1 lhs = false).
+    { destruct (has_af t1 lhs) eqn:E; [|reflexivity]. exfalso. apply has_af_names in E. destruct E as [E|E].
+      - rewrite Hn1 in E. apply filter_In in E. destruct E as [_ E]. unfold keep in E. rewrite str_eqb_refl in E. discriminate.
+      - rewrite (inv_novirt t HI lhs Hin) in E. discriminate. }
+    destruct (create_list_ok t1 lhs col Hnew ltac:(congruence) ltac:(congruence)) as [t2 Hcr]. rewrite Hcr. cbn [bind].
+    destruct (create_new_spec t1 lhs (IList col) t2 HI1 Hnew Hcr) as [HI2 [Hn2 [Hs2 [Hg2 [Hx2 [Hy2 [Hz2 [Ht2 Hfr2]]]]]]]].
+    exists t2. split; [reflexivity|]. split; [exact HI2|]. split; [right; rewrite Hn2, Hn1; reflexivity|]. split; [congruence|].
+    split.
+    + cbn [dcol]. rewrite Hg2. f_equal. apply firstn_all2. rewrite Hs1, Hlen. apply Nat.le_refl.
+    + split; [congruence|]. split; [congruence|]. split; [congruence|]. split; [congruence|].
+      intros m Hm. rewrite (Hfr2 m Hm). apply Hfr1. exact Hm.
+Qed.
+
+(* ------------------------------------------------------------------ Track.operate("lhs=expr"), lhs an existing feature *)
+Definition nontemp (a : str) : bool := negb (is_temp a).
+Lemma filter_comm {A} (f g : A -> bool) l : filter f (filter g l) = filter g (filter f l).
+Proof. induction l as [|a l IH]; [reflexivity|]. cbn [filter]. destruct (g a) eqn:Eg, (f a) eqn:Ef; cbn [filter]; rewrite ?Eg, ?Ef, IH; reflexivity. Qed.
+Lemma filter_none {A} (f : A -> bool) l : (forall a, In a l -> f a = false) -> filter f l = [].
+Proof. induction l as [|a l IH]; intros H; [reflexivity|]. cbn [filter]. rewrite (H a (or_introl eq_refl)). apply IH. intros b Hb. apply H. right. exact Hb. Qed.
+
+Theorem operate_assign_over lhs i e t d :
+  Inv t -> coords_ok t -> Table.size t <> 0%nat -> fresh_from t 0 ->
+  (forall m, In m (names t) -> is_temp m = false) ->
+  lhs_ok lhs -> lookup (dico t) lhs = Some i ->
+  wf e -> wfe t e -> (0 < minclass e)%nat -> clean (print e) = true -> sem t e = Ok d ->
+  exists t3, operate_str t (assign_str lhs e) = Ok (t3, None)
+    /\ Inv t3 /\ (names t3 = names t \/ names t3 = filter (keep lhs) (names t) ++ [lhs])
+    /\ get_af t3 lhs = Ok (dcol (Table.size t) d)
+    /\ (forall m, m <> lhs -> has_af t m = true -> get_af t3 m = get_af t m)
+    /\ xs t3 = xs t /\ ys t3 = ys t /\ zs t3 = zs t /\ ts t3 = ts t.
+Proof.
+  intros HI Hco Hs Hfresh Hnt Hl Hlk Hwf Hwfe Hmin Hclean Hsem.
+  destruct (evaluate_assign_run lhs e t d HI Hco Hs Hfresh Hl Hwf Hwfe Hmin Hclean Hsem) as [t' [it [Hext [Hco' [Hirel Hev]]]]].
+  pose proof (e_inv _ _ _ _ Hext) as HI'. pose proof (e_size _ _ _ _ Hext) as Hsz'.
+  assert (Hinl : In lhs (names t)).
+  { destruct (In_dec (list_eq_dec ascii_dec) lhs (names t)) as [H|H]; [exact H|]. apply lookup_none_notin in H. congruence. }
+  pose proof (Hnt lhs Hinl) as Hlt.
+  destruct (e_names _ _ _ _ Hext) as [tmps [Hnm Htm]].
+  assert (Hin' : In lhs (names t')) by (rewrite Hnm; apply in_or_app; left; exact Hinl).
+  destruct (in_names_lookup t' lhs HI' Hin') as [i' Hlk'].
+  assert (Hlen : match d with DC col => List.length col = Table.size t' | DS _ => True end).
+  { pose proof (sem_length t e d HI Hco Hsem) as L. destruct d; [exact I | congruence]. }
+  destruct (assign_over t' lhs i' it d (0 + nops e) HI' Hco' ltac:(congruence) Hlk' Hirel Hlen)
+    as [t1 [Hap [HI1 [Hn1 [Hsz1 [Hg1 [Hx1 [Hy1 [Hz1 [Ht1 Hfr1]]]]]]]]]].
+  unfold operate_str. rewrite Hev, Hap. cbn [bind fst snd].
+  change (fold_left (fun rt n => do t' <- rt; if is_temp n then remove_af t' n else Ok t') (names t1) (Ok t1))
+    with (fold_left cleanup_step (names t1) (Ok t1)).
+  destruct (cleanup_gen (names t1) t1 HI1 (inv_nodup t1 HI1) (fun n H _ => H))
+    as [t3 [E [HI3 [Hn3 [Hs3 [Hx3 [Hy3 [Hz3 [Ht3 Hfr3]]]]]]]]].
+  rewrite E. cbn [bind]. destruct (e_coords _ _ _ _ Hext) as [Hx' [Hy' [Hz' Ht']]].
+  assert (Hn3' : names t3 = filter nontemp (names t1)).
+  { rewrite Hn3. apply filter_ext_in. intros a Ha. unfold nontemp.
+    assert (Iin : inb a (names t1) = true) by (unfold inb; apply existsb_exists; exists a; split; [exact Ha | apply str_eqb_eq; reflexivity]).
+    rewrite Iin, andb_true_r. reflexivity. }
+  assert (A : filter nontemp (names t) = names t) by (apply filter_all; intros a Ha; unfold nontemp; rewrite (Hnt a Ha); reflexivity).
+  assert (B : filter nontemp tmps = []).
+  { apply filter_none. intros a Ha. destruct (Htm a Ha) as [j [_ ->]]. unfold nontemp. rewrite temp_is_temp. reflexivity. }
+  exists t3. split; [reflexivity|]. split; [exact HI3|]. split.
+  - assert (C : filter nontemp (names t ++ tmps) = names t).
+    { rewrite filter_app. transitivity (names t ++ []); [f_equal; [exact A | exact B] | apply app_nil_r]. }
+    rewrite Hn3'. destruct Hn1 as [Hn1|Hn1]; rewrite Hn1, Hnm.
+    + left. exact C.
+    + right. rewrite filter_app. f_equal.
+      * rewrite (filter_comm nontemp (keep lhs)). f_equal. exact C.
+      * cbn [filter]. unfold nontemp. rewrite Hlt. reflexivity.
+  - split; [|split].
+    + rewrite Hfr3 by (rewrite Hlt; reflexivity). rewrite Hg1, Hsz'. reflexivity.
+    + intros m Hne Hm. rewrite Hfr3; [rewrite (Hfr1 m Hne); apply (e_old _ _ _ _ Hext m Hm)|].
+      destruct (is_temp m) eqn:Etm; [|reflexivity]. cbn [andb]. exfalso.
+      apply has_af_names in Hm. destruct Hm as [Hm|Hm]; [rewrite (Hnt _ Hm) in Etm; discriminate|].
+      unfold is_virtual, virtuals in Hm. apply existsb_exists in Hm. destruct Hm as [v [Hv Ev]]. apply str_eqb_eq in Ev. subst v.
+      cbn in Hv. repeat (destruct Hv as [<-|Hv]; [discriminate Etm|]). destruct Hv.
+    + repeat split; congruence.
+Qed.
+Print Assumptions operate_assign_over.
+
+(* ------------------------------------------------------------------ Track.operate("x=expr") / y / z : the coordinate is overwritten *)
+Definition is_xyz (c : str) : Prop := c = s_ "x" \/ c = s_ "y" \/ c = s_ "z".
+Definition with_coord (t : track) (c : str) (col : list val) : track :=
+  if str_eqb c (s_ "x") then {| xs := col; ys := ys t; zs := zs t; ts := ts t; dico := dico t; feats := feats t |}
+  else if str_eqb c (s_ "y") then {| xs := xs t; ys := col; zs := zs t; ts := ts t; dico := dico t; feats := feats t |}
+  else {| xs := xs t; ys := ys t; zs := col; ts := ts t; dico := dico t; feats := feats t |}.
+Definition coord_of (t : track) (c : str) : list val :=
+  if str_eqb c (s_ "x") then xs t else if str_eqb c (s_ "y") then ys t else zs t.
+
+Lemma set_col_coord t c col : is_xyz c -> set_col t c col = Ok (with_coord t c col).
+Proof. intros [->|[->| ->]]; reflexivity. Qed.
+
+Lemma with_coord_spec t c col : is_xyz c -> Inv t -> coords_ok t -> List.length col = Table.size t ->
+  let t1 := with_coord t c col in
+  Inv t1 /\ coords_ok t1 /\ Table.size t1 = Table.size t /\ dico t1 = dico t /\ names t1 = names t /\ ts t1 = ts t /\
+  coord_of t1 c = col /\ get_af t1 c = Ok col /\
+  (forall c', is_xyz c' -> c' <> c -> coord_of t1 c' = coord_of t c') /\
+  (forall m, m <> c -> get_af t1 m = get_af t m).
+Proof.
+  intros Hc HI [Hy [Hz Ht]] Hlen. destruct HI as [Hnd Hidx Hf Hn Hnv].
+  assert (Hnm : forall m a b, m <> a -> a = b -> str_eqb m b = false) by (intros m a b H <-; apply Table_inv.str_eqb_false; exact H).
+  destruct Hc as [->|[->| ->]]; cbv zeta; unfold with_coord, coord_of;
+    repeat match goal with |- context [str_eqb (s_ ?a) (s_ ?b)] => let v := eval vm_compute in (str_eqb (s_ a) (s_ b)) in change (str_eqb (s_ a) (s_ b)) with v end; cbv iota.
+  all: split; [constructor; cbn [names dico feats Table.size xs]; try assumption; unfold Table.size in *; cbn [xs]; congruence|].
+  all: split; [unfold coords_ok, Table.size in *; cbn [xs ys zs ts]; repeat split; congruence|].
+  all: split; [unfold Table.size in *; cbn [xs]; congruence|].
+  all: split; [reflexivity|]. all: split; [reflexivity|]. all: split; [reflexivity|]. all: split; [reflexivity|]. all: split; [reflexivity|].
+  all: split.
+  all: try (intros c' [->|[->| ->]] Hne; try (exfalso; apply Hne; reflexivity);
+            repeat match goal with |- context [str_eqb (s_ ?a) (s_ ?b)] => let v := eval vm_compute in (str_eqb (s_ a) (s_ b)) in change (str_eqb (s_ a) (s_ b)) with v end; reflexivity).
+  all: intros m Hm; unfold get_af, Table.size in *; cbn [xs ys zs ts dico feats];
+       try rewrite (Hnm m _ _ Hm eq_refl); rewrite ?Hlen; try reflexivity.
+Qed.
+
+Lemma has_af_xyz t c : is_xyz c -> has_af t c = true.
+Proof. intros Hc. unfold has_af. destruct (lookup (dico t) c); [reflexivity|]. destruct Hc as [->|[->| ->]]; reflexivity. Qed.
+Lemma xyz_flags c : is_xyz c -> existsb (str_eqb c) (map s_ ["x"; "y"; "z"]%string) = true /\ existsb (str_eqb c) (map s_ ["x"; "y"; "z"; "t"]%string) = true /\ str_eqb c (s_ "t") = false /\ is_temp c = false.
+Proof. intros [->|[->| ->]]; repeat split; reflexivity. Qed.
+
+Lemma assign_coord t c it d k :
+  is_xyz c -> Inv t -> coords_ok t -> irel t it d ->
+  (match d with DC col => List.length col = Table.size t | DS _ => True end) ->
+  exists t1, apply_op t (SStr c) it "=" k = Ok (t1, SNone) /\ Inv t1 /\ Table.size t1 = Table.size t /\
+    coord_of t1 c = dcol (Table.size t) d /\ ts t1 = ts t /\
+    (forall c', is_xyz c' -> c' <> c -> coord_of t1 c' = coord_of t c') /\
+    (names t1 = names t \/ exists n, is_temp n = true /\ names t1 = filter (keep n) (names t)) /\
+    (forall m, m <> c -> is_temp m = false -> get_af t1 m = get_af t m).
+Proof.
+  intros Hc HI Hco Hrel Hlen. unfold apply_op. change (Ascii.eqb "=" "=") with true. cbv iota.
+  destruct (xyz_flags c Hc) as [F3 [F4 [Ft Ftemp]]].
+  destruct d as [v|col].
+  - destruct Hrel as [Ha [Hb Hcv]]. rewrite Ha, Hcv. cbn [bind]. rewrite F3.
+    rewrite (set_col_coord t c _ Hc). cbn [bind].
+    destruct (with_coord_spec t c (repeat v (Table.size t)) Hc HI Hco (repeat_length _ _)) as [HI1 [Hco1 [Hs1 [Hd1 [Hn1 [Ht1 [Hg1 [_ [Ho1 Hfr1]]]]]]]]].
+    eexists. split; [reflexivity|]. split; [exact HI1|]. split; [exact Hs1|]. split; [exact Hg1|]. split; [exact Ht1|]. split; [exact Ho1|].
+    split; [left; exact Hn1|]. intros m Hm _. apply Hfr1. exact Hm.
+  - destruct Hrel as [n [-> [Ha [Hb Hcn]]]]. cbn [item_has_af]. rewrite Ha, (has_af_xyz t c Hc), F4. unfold set_coord_from. rewrite Hcn. cbn [bind]. rewrite Ft.
+    rewrite (set_col_coord t c col Hc). cbn [bind].
+    destruct (with_coord_spec t c col Hc HI Hco Hlen) as [HI1 [Hco1 [Hs1 [Hd1 [Hn1 [Ht1 [Hg1 [_ [Ho1 Hfr1]]]]]]]]].
+    set (t1 := with_coord t c col) in *.
+    destruct n as [|a n'] eqn:En; [eexists; split; [reflexivity|]; split; [exact HI1|]; split; [exact Hs1|]; split; [exact Hg1|]; split; [exact Ht1|]; split; [exact Ho1|]; split; [left; exact Hn1|]; intros m Hm _; apply Hfr1; exact Hm|].
+    destruct (Ascii.eqb_spec a "#"%char) as [->|Na].
+    + (* an evaluator temporary: consumed by the assignment *)
+      rewrite <- En in *.
+      assert (Htn : is_temp n = true) by (rewrite En; reflexivity).
+      assert (exists j, lookup (dico t) n = Some j) as [j Hj].
+      { unfold has_af in Ha. destruct (lookup (dico t) n) as [j|]; [exists j; reflexivity|]. exfalso.
+        unfold is_virtual, virtuals in Ha. apply existsb_exists in Ha. destruct Ha as [v [Hv Ev]]. apply str_eqb_true in Ev. subst v.
+        cbn in Hv. repeat (destruct Hv as [<-|Hv]; [discriminate Htn|]). destruct Hv. }
+      assert (Hj1 : lookup (dico t1) n = Some j) by (rewrite Hd1; exact Hj).
+      assert (exists t2, remove_af t1 n = Ok t2) as [t2 Hrm] by (unfold remove_af; rewrite (lookup_has t1 n j Hj1), Hj1; cbn [negb]; eexists; reflexivity).
+      rewrite En in Hrm |- *. rewrite Hrm. cbn [bind]. rewrite <- En in *.
+      destruct (remove_spec t1 n j t2 HI1 Hj1 Hrm) as [HI2 [Hn2 [Hs2 [Hx2 [Hy2 [Hz2 [Ht2 [_ Hfr2]]]]]]]].
+      assert (Hcoord : forall c', coord_of t2 c' = coord_of t1 c') by (intros c'; unfold coord_of; rewrite Hx2, Hy2, Hz2; reflexivity).
+      exists t2. split; [reflexivity|]. split; [exact HI2|]. split; [congruence|]. split; [rewrite Hcoord; exact Hg1|]. split; [congruence|].
+      split; [intros c' H1 H2; rewrite Hcoord; apply Ho1; assumption|].
+      split; [right; exists n; split; [exact Htn | rewrite Hn2, Hn1; reflexivity]|].
+      intros m Hm Htm. rewrite Hfr2 by (intros ->; congruence). apply Hfr1. exact Hm.
+    + assert (Hm : match a :: n' with "#"%char :: _ => remove_af t1 (a :: n') | _ => Ok t1 end = Ok t1).
+      { destruct a as [[|] [|] [|] [|] [|] [|] [|] [|]]; try reflexivity. contradiction Na. reflexivity. }
+      rewrite Hm. cbn [bind].
+      eexists; split; [reflexivity|]; split; [exact HI1|]; split; [exact Hs1|]; split; [exact Hg1|]; split; [exact Ht1|]; split; [exact Ho1|]; split; [left; exact Hn1|]; intros m Hm' _; apply Hfr1; exact Hm'.
+Qed.
+
+Lemma xyz_lhs_ok c : is_xyz c -> lhs_ok c.
+Proof. intros [->|[->| ->]]; repeat split; try discriminate; reflexivity. Qed.
+
+Theorem operate_assign_coord c e t d :
+  is_xyz c ->
+  Inv t -> coords_ok t -> Table.size t <> 0%nat -> fresh_from t 0 ->
+  (forall m, In m (names t) -> is_temp m = false) ->
+  wf e -> wfe t e -> (0 < minclass e)%nat -> clean (print e) = true -> sem t e = Ok d ->
+  exists t3, operate_str t (assign_str c e) = Ok (t3, None)
+    /\ Inv t3 /\ names t3 = names t
+    /\ coord_of t3 c = dcol (Table.size t) d
+    /\ (forall c', is_xyz c' -> c' <> c -> coord_of t3 c' = coord_of t c')
+    /\ ts t3 = ts t
+    /\ (forall m, m <> c -> has_af t m = true -> get_af t3 m = get_af t m).
+Proof.
+  intros Hc HI Hco Hs Hfresh Hnt Hwf Hwfe Hmin Hclean Hsem.
+  destruct (evaluate_assign_run c e t d HI Hco Hs Hfresh (xyz_lhs_ok c Hc) Hwf Hwfe Hmin Hclean Hsem) as [t' [it [Hext [Hco' [Hirel Hev]]]]].
+  pose proof (e_inv _ _ _ _ Hext) as HI'. pose proof (e_size _ _ _ _ Hext) as Hsz'.
+  destruct (e_names _ _ _ _ Hext) as [tmps [Hnm Htm]].
+  destruct (e_coords _ _ _ _ Hext) as [Hx' [Hy' [Hz' Ht']]].
+  assert (Hlen : match d with DC col => List.length col = Table.size t' | DS _ => True end).
+  { pose proof (sem_length t e d HI Hco Hsem) as L. destruct d; [exact I | congruence]. }
+  destruct (assign_coord t' c it d (0 + nops e) Hc HI' Hco' Hirel Hlen)
+    as [t1 [Hap [HI1 [Hsz1 [Hg1 [Ht1 [Ho1 [Hn1 Hfr1]]]]]]]].
+  unfold operate_str. rewrite Hev, Hap. cbn [bind fst snd].
+  change (fold_left (fun rt n => do t' <- rt; if is_temp n then remove_af t' n else Ok t') (names t1) (Ok t1))
+    with (fold_left cleanup_step (names t1) (Ok t1)).
+  destruct (cleanup_gen (names t1) t1 HI1 (inv_nodup t1 HI1) (fun n H _ => H))
+    as [t3 [E [HI3 [Hn3 [Hs3 [Hx3 [Hy3 [Hz3 [Ht3 Hfr3]]]]]]]]].
+  rewrite E. cbn [bind].
+  assert (Hn3' : names t3 = filter nontemp (names t1)).
+  { rewrite Hn3. apply filter_ext_in. intros a Ha. unfold nontemp.
+    assert (Iin : inb a (names t1) = true) by (unfold inb; apply existsb_exists; exists a; split; [exact Ha | apply str_eqb_eq; reflexivity]).
+    rewrite Iin, andb_true_r. reflexivity. }
+  assert (A : filter nontemp (names t) = names t) by (apply filter_all; intros a Ha; unfold nontemp; rewrite (Hnt a Ha); reflexivity).
+  assert (B : filter nontemp tmps = []).
+  { apply filter_none. intros a Ha. destruct (Htm a Ha) as [j [_ ->]]. unfold nontemp. rewrite temp_is_temp. reflexivity. }
+  assert (C : filter nontemp (names t ++ tmps) = names t).
+  { rewrite filter_app. transitivity (names t ++ []); [f_equal; [exact A | exact B] | apply app_nil_r]. }
+  assert (Hcoord3 : forall c', coord_of t3 c' = coord_of t1 c') by (intros c'; unfold coord_of; rewrite Hx3, Hy3, Hz3; reflexivity).
+  assert (Hcoord' : forall c', coord_of t' c' = coord_of t c') by (intros c'; unfold coord_of; rewrite Hx', Hy', Hz'; reflexivity).
+  exists t3. split; [reflexivity|]. split; [exact HI3|]. split.
+  - rewrite Hn3'. destruct Hn1 as [Hn1|[n [Htn Hn1]]]; rewrite Hn1, Hnm.
+    + exact C.
+    + rewrite (filter_comm nontemp (keep n)). transitivity (filter (keep n) (names t)); [f_equal; exact C|].
+      apply filter_keep_notin. intros Hin. rewrite (Hnt n Hin) in Htn. discriminate.
+  - split; [rewrite Hcoord3, Hg1, Hsz'; reflexivity|].
+    split; [intros c' H1 H2; rewrite Hcoord3, (Ho1 c' H1 H2); apply Hcoord'|].
+    split; [congruence|].
+    intros m Hne Hm.
+    assert (Htmf : is_temp m = false).
+    { destruct (is_temp m) eqn:Etm; [|reflexivity]. exfalso.
+      apply has_af_names in Hm. destruct Hm as [Hm|Hm]; [rewrite (Hnt _ Hm) in Etm; discriminate|].
+      unfold is_virtual, virtuals in Hm. apply existsb_exists in Hm. destruct Hm as [v [Hv Ev]]. apply str_eqb_eq in Ev. subst v.
+      cbn in Hv. repeat (destruct Hv as [<-|Hv]; [discriminate Etm|]). destruct Hv. }
+    rewrite Hfr3 by (rewrite Htmf; reflexivity). rewrite (Hfr1 m Hne Htmf). apply (e_old _ _ _ _ Hext m Hm).
+Qed.
+Print Assumptions operate_assign_coord.
